@@ -124,9 +124,12 @@ def world_for(case, variant):
     return w, root
 
 
-def outputs(r, root, case):
+def outputs(r, root, case, stdout_encoding='utf-8'):
     def norm(t):
         return None if t is None else t.replace(root + '/', '').replace(root, '.')
+    if stdout_encoding not in ('utf-8', 'ascii', 'latin-1') and r.get('stdout'):
+        # the console's encoding changes the BYTES on stdout, not the text: compare text
+        r = dict(r, stdout=r['stdout'].encode('latin-1').decode(stdout_encoding, 'replace').lstrip('\ufeff'))
     out = {'failed': r['kind'] == 'exception' or (r['kind'] == 'exit' and r['exit'] != 0), 'kind': r['kind'],
            'exit': r['exit'], 'image': r['files'].get(f'{root}/out.bin'), 'stdout': norm(r.get('stdout', ''))}
     if case.get('sink') == 'file':
@@ -161,7 +164,7 @@ def compare(o0, o1, case):
 def run_variant(case, variant):
     w, root = world_for(case, variant)
     r = child.run_world(w)
-    return r, outputs(r, root, case)
+    return r, outputs(r, root, case, (variant or {}).get('stdout_encoding', 'utf-8'))
 
 
 # ---- cross-process tier ----------------------------------------------------------------------------
@@ -301,7 +304,7 @@ def gen_variant(rnd, ndirs, single=None):
         v['home'] = rnd.choice(['/sim/home2', '/nonexistent', '/sim/proj'])
     if 'enc' in chosen:
         v['encoding'] = rnd.choice(['ascii', 'latin-1', 'utf-8', 'cp1252'])
-        v['stdout_encoding'] = rnd.choice(['ascii', 'latin-1', 'utf-8'])
+        v['stdout_encoding'] = rnd.choice(['ascii', 'latin-1', 'utf-8', 'utf-16', 'utf-16'])
     if 'epoch' in chosen:
         v['epoch'] = rnd.choice([0.0, 3.0e8, 9.9e8, 1.9e9, 4.4e9, 315532800.0 - 86400 * 400])
         v['mtime_skew'] = rnd.choice([0, 7.7e7, 1.23e8])      # different (and differently ordered) file timestamps
